@@ -213,3 +213,12 @@ Proof.
   apply Qplus_inj_l. destruct y as [s lf w ch]. rewrite propagate_children. cbn [wn_children]. rewrite map_map.
   apply qsum_map_ext. intros c _. rewrite propagate_seg. reflexivity.
 Qed.
+
+(* Report.Add and PropagateWeights keep the dates of every weight map ascending: on every node
+   of the propagated report the renderer's lookup (wm_get) reads the date's sum (wsum_get) *)
+Lemma report_cells_asc es p x : wn_find p (propagate (report_of es)) = Some x -> wm_asc (wn_weights x).
+Proof.
+  rewrite wn_find_propagate. destruct (wn_find p (report_of es)) as [y|] eqn:E; [|discriminate]. cbn [option_map].
+  intros H. inversion H; subst. apply propagate_weights_asc.
+  exact (tall_here _ _ (wn_find_tall _ p _ y (proj2 (report_shape es)) E)).
+Qed.
